@@ -70,6 +70,9 @@ def render(case):
         # the factory takes its parameters as keyword-only ones
         params = "*, " + params
     fac_body = "    LOG.append(('ef', {}))\n    RET['v'] = {}\n    return RET['v']\n".format(log_expr, case.get("fac_ret", "MyErr('from factory')"))
+    if case.get("fac_raise"):
+        # the factory itself fails (with the kind of error a mis-supplied argument would give as well): it is called once, its error surfaces
+        fac_body = "    LOG.append(('ef', {}))\n    raise {}\n".format(log_expr, case["fac_raise"])
     err = None
     if form == "none":
         err = ""
@@ -167,6 +170,7 @@ def cases(tier):
                         out.append({"role": role, "callable": ck, "form": form, "subset": names[:1], "fac_ret": "MyBase('base from factory')"})
                         out.append({"role": role, "callable": ck, "form": form, "subset": names[:1], "fac_ret": "FalsyErr('falsy from factory')"})
                         out.append({"role": role, "callable": ck, "form": form, "subset": [], "fac_ret": "EmptyErr('empty from factory')"})
+                        out.append({"role": role, "callable": ck, "form": form, "subset": names[:1], "fac_raise": "TypeError('raised by the factory')"})
                 else:
                     out.append({"role": role, "callable": ck, "form": form, "subset": []})
     return out
@@ -267,6 +271,11 @@ def run_case(case, acc):
             if is_fac and case.get("unknown"):
                 if not isinstance(exc, TypeError) or case["unknown"] not in str(exc) or efs:
                     viol("unknown_factory_argument", "expected TypeError naming {!r} and no factory call, got {!r} efs={}".format(case["unknown"], exc, efs))
+                continue
+            if is_fac and case.get("fac_raise"):
+                if len(efs) != 1 or type(exc) is not TypeError or "raised by the factory" not in str(exc):
+                    viol("factory_call_count" if len(efs) != 1 else "raised_not_the_returned_exception",
+                         "call {}: the factory raises TypeError('raised by the factory'): it was called {} times, the caller got {!r}".format(i, len(efs), exc))
                 continue
             if is_fac:
                 if len(efs) != 1:
